@@ -4,7 +4,6 @@ import (
 	"bytes"
 	"encoding/json"
 	"fmt"
-	"sync"
 )
 
 // SimpleNode is used as the default node type when there is no more appropriate
@@ -113,7 +112,7 @@ func (node *SimpleNode) AddNode(n Node) {
 	//
 	// We can't simply remove this node because we would have to make sure we
 	// work our way up the chain which we have no easy way of doing right now.
-	nodeCache = &sync.Map{}
+	resetNodeCache()
 }
 
 func (node *SimpleNode) DeleteNode(n Node) (didDelete bool) {
@@ -121,7 +120,7 @@ func (node *SimpleNode) DeleteNode(n Node) (didDelete bool) {
 
 	// The children have changed so NodesWithTag must not answer from what it
 	// remembered before. See AddNode.
-	nodeCache = &sync.Map{}
+	resetNodeCache()
 
 	return
 }
@@ -234,7 +233,7 @@ func (node *SimpleNode) SetNodes(nodes Nodes) {
 
 	// The children have changed so NodesWithTag must not answer from what it
 	// remembered before. See AddNode.
-	nodeCache = &sync.Map{}
+	resetNodeCache()
 }
 
 func (node *SimpleNode) RawSimpleNode() *SimpleNode {
